@@ -205,9 +205,13 @@ func (s *Service) prune(ctx context.Context) {
 				failedSet[eh.Height()] = struct{}{}
 				failed++
 			} else {
-				lastPrunedHeader = eh
 				successful++
 			}
+			// always advance past the header: failed heights are recorded in the checkpoint's
+			// failed set and retried by retryFailed on every cycle. Advancing only on success
+			// makes the loop spin forever (holding checkpointMu) once a full batch fails,
+			// and re-prunes trailing failures on the next iteration.
+			lastPrunedHeader = eh
 		}
 
 		err = s.updateCheckpoint(s.ctx, lastPrunedHeader.Height(), failedSet)
